@@ -453,7 +453,7 @@ InFlightUnadded(k) ==   \* a Put wrote k to the store and has not added it to a 
      \/ Kd(a) = "PutMany" /\ k \in op[a].ks
           /\ (pc[a] \in {"mExit", "mUpd", "mUnlock"} \/ (pc[a] \in {"mAddLoad", "mAdd"} /\ k \in todo[a]))
 ActiveImpliesComplete == active => complete[live]
-CompleteCovers == complete[live] => \A k \in store : k \in bits[live] \/ InFlightUnadded(k)
+CompleteCovers == UseBloom /\ complete[live] => \A k \in store : k \in bits[live] \/ InFlightUnadded(k)
 LockOK         == \A k \in Keys : wr[k] # None => rd[k] = {}
 CacheCoherent  == \A k \in Keys : wr[k] = None /\ cache[k] # None => ((cache[k] = "no") <=> (k \notin store))
 TypeOK ==
